@@ -6,6 +6,20 @@ import specs.npath  # noqa: F401
 
 M = "nix_manipulator/cli/manipulations.py"
 
+
+def _seg(name, quoted):
+    from nix_manipulator.cli.manipulations import _NPathSegment
+
+    return _NPathSegment(name=name, quoted=quoted)
+
+
+def _names(tier):
+    from harness.native import strings
+
+    alphabet = ["a", '"', "\\", ".", "$", "{", "\n", "\r", "\t", " ", "'", "0", "é", "-", "_"]
+    yield from strings(alphabet, 3 if tier == "quick" else 4)
+    yield from ("if", "then", "else", "assert", "with", "let", "in", "rec", "inherit", "or", "foo-bar", "${x}", "a.b")
+
 contract(
     target=f"{M}::_split_scope_npath",
     params={"npath": Str},
@@ -47,4 +61,15 @@ contract(
     loops={0: Loop(invariant=_NP_INV)},
     canaries=["len(result) == 0"],
     props=["C12", "C05", "C08"],
+)
+
+contract(
+    target=f"{M}::_format_attr_name",
+    params={"segment": Rec("_NPathSegment")},
+    returns=Str,
+    ensures=["attr_spelling(result, segment.name, segment.quoted)"],
+    exsures={},
+    canaries=["result == segment.name"],
+    domain=lambda tier: ({"segment": _seg(n, q)} for n in _names(tier) for q in (False, True)),
+    props=["C12", "C05"],
 )
